@@ -9,9 +9,14 @@ class NativeCheck:
                     text="C17: KernelCpu.to_function_arg / __call__ and KernelDispatcher.__call__ under contract relative to cffi/numpy axioms (pointer = base of the "
                          "current storage + offset, typed as declared; element type of pointer arguments taken from the array; refusals); the FFI behaviour itself "
                          "(marshalling, type checks, return values) is decided by the bounded native part: compiled echo/first/store/address kernels."),
-        "C18": dict(mod="checks.hybrid_native", fn="run_c18", vc=None, level="exploration",
-                    text="C18: run-time contract DressInv after every step of operation histories on generated hybrid classes (bounded; hybrid_class.py is outside "
-                         "the python subset of the verifier)."),
+        "C18": dict(mod="checks.hybrid_native", fn="run_c18", vc="hybrid_vc", level="other",
+                    text="C18: HybridClass.move / copy / __getstate__ under contract on an abstract dressed object (copy construction of the data struct and "
+                         "_reinit_from_xobject used through their contracts): move is refused, constructing nothing, for an object that lives within another "
+                         "or whose data holds references, otherwise the data is copy-constructed once into the requested place, installed, and the nested "
+                         "dressed parts are re-initialised from it; copy copy-constructs once (own context by default) and wraps the copy in a new object, the "
+                         "original untouched.  Descriptors (_FieldOfDressed), MetaHybridClass.__new__, _reinit_from_xobject itself and the mirroring of buffer "
+                         "data under renaming are outside the python subset: run-time contract DressInv after every step of operation histories on generated "
+                         "hybrid classes (bounded)."),
         "C19": dict(mod="checks.hybrid_native", fn="run_c19", vc="types_vc", level="other",
                     text="C19: Struct._to_json under contract (classes of <= 3 fields, abstract field types): a dict with exactly the field names in declaration "
                          "order, each value read through the field's type at its documented address; with the writer contract for dict values (C01/C05 groups) the "
@@ -47,7 +52,7 @@ class NativeCheck:
             import importlib
 
             mod = importlib.import_module("checks." + self.sp["vc"])
-            return mod.targets(self.PROP) if self.sp["vc"] == "types_vc" else mod.targets()
+            return mod.targets(self.PROP) if self.sp["vc"] in ("types_vc", "hybrid_vc") else mod.targets()
         return []
 
     def bounded(self, tier, seed, focus):
